@@ -8,21 +8,24 @@
 EXTENDS ScatterGather, Json
 CONSTANTS Lo, Hi, N
 MCShapes == Shapes(D, Lo, Hi)
-OneFlat == {Flat(N)}
 Rect == {[i \in 1..Hi |-> IF D = 1 THEN <<>> ELSE [j \in 1..Hi |-> IF D = 2 THEN <<>> ELSE [k \in 1..Hi |-> <<>>]]]}
 
-\* structured delivery orders of a flat list of N elements (numeric vs lexicographic order differ from 10 on)
-Free == {<<>>}
-Ident == [i \in 1..N |-> <<i - 1>>]
-Reverse == [i \in 1..N |-> <<N - i>>]
-Rot(k) == [i \in 1..N |-> <<(i - 1 + k) % N>>]
-TenFirst == <<<<N - 1>>>> \o [i \in 1..(N - 1) |-> <<i - 1>>]             \* the last one (>= 10) before "2"
-Lexico == SortSeq(Ident, LAMBDA a, b : LET sa == ToString(a[1]) sb == ToString(b[1]) IN
-                                         IF a[1] < 10 /\ b[1] >= 10 THEN a[1] <= b[1] \div 10
-                                         ELSE IF a[1] >= 10 /\ b[1] < 10 THEN a[1] \div 10 < b[1]
-                                         ELSE a[1] < b[1])                    \* 0 1 10 11 2 3 ... (N < 100)
-EvenOdd == SelectSeq(Ident, LAMBDA p : p[1] % 2 = 0) \o SelectSeq(Reverse, LAMBDA p : p[1] % 2 = 1)
-Structured == {Ident, Reverse, Rot(1), Rot(N \div 2), Rot(N - 1), TenFirst, Lexico, EvenOdd}
+\* structured delivery orders of a flat list of n elements (numeric vs lexicographic order differ from 10 on)
+Free(sh) == {<<>>}
+Ident(n) == [i \in 1..n |-> <<i - 1>>]
+Reverse(n) == [i \in 1..n |-> <<n - i>>]
+Rot(n, k) == [i \in 1..n |-> <<(i - 1 + k) % n>>]
+TenFirst(n) == <<<<n - 1>>>> \o [i \in 1..(n - 1) |-> <<i - 1>>]           \* the last one (>= 10) before "2"
+Lexico(n) == SortSeq(Ident(n), LAMBDA a, b : IF a[1] < 10 /\ b[1] >= 10 THEN a[1] <= b[1] \div 10
+                                             ELSE IF a[1] >= 10 /\ b[1] < 10 THEN a[1] \div 10 < b[1]
+                                             ELSE a[1] < b[1])                \* 0 1 10 11 2 3 ... (n < 100)
+EvenOdd(n) == SelectSeq(Ident(n), LAMBDA p : p[1] % 2 = 0) \o SelectSeq(Reverse(n), LAMBDA p : p[1] % 2 = 1)
+Structured(sh) == LET n == Len(sh) IN
+                  {Ident(n), Reverse(n), Rot(n, 1), Rot(n, n \div 2), TenFirst(n), Lexico(n), EvenOdd(n)}
+StructuredQ(sh) == LET n == Len(sh) IN {Reverse(n), Rot(n, n \div 2), TenFirst(n), Lexico(n)}
+\* flat lists of the lengths where numeric and lexicographic tag order differ
+BigFlats == {Flat(10), Flat(11), Flat(12), Flat(15)}
+OneFlat == {Flat(N)}
 
 Dump ==
   /\ AllFin /\ hist # <<>>
